@@ -23,6 +23,7 @@ TECHNIQUE = 'stateful property-based testing (Hypothesis RuleBasedStateMachine):
 RULE = ('cases = histories (<=6 steps quick, <=10 thorough) of: run a stage (statistics, reference markers, query marker selection, mapping) successfully; run it with an injected worker failure or an invalid input; '
         'plant stale files under every temp-name pattern the stages use; start two runs together in fresh interpreters sharing the directories; '
         'non-trivial = a history containing a failure or planted files before a later successful run, or a concurrent pair; distinct = distinct rule sequence')
+RULE += "; further rules: mapping with an unwritable JSON / HDF5 / CSV destination, the type-assignment stage called directly on a results directory that holds another run's chunk files, storing results in the query file; the reference file is CSC-encoded"
 ASSUMPTIONS = ['"scratch empty after return" is asserted for every successful stage and for failing mapping runs (as the statement says); leftovers of other failing stages are recorded, not asserted',
                'two concurrent runs are two real processes released by a barrier, not an owned interleaving']
 
